@@ -14,7 +14,7 @@ Proof. vm_compute. reflexivity. Qed.
 
 Lemma never_ok_early : forall cnt ch f w0 r s,
   invb w0 = true -> lost w0 = false ->
-  run pipeline cnt ch f w0 = (r, s) ->
+  run_prog pipeline cnt ch f w0 = (r, s) ->
   st (wd s) = SOk -> ex (wd s) = true /\ co (wd s) = true /\ so (wd s) = true /\ ix (wd s) = true.
 Proof.
   intros cnt ch f w0 r s Hinv Hl Hrun Hst.
@@ -25,7 +25,7 @@ Qed.
 
 Lemma never_ok_early_crash_at : forall cnt ch k w0 r s,
   invb w0 = true -> lost w0 = false ->
-  run pipeline cnt ch (crash_at k) w0 = (r, s) ->
+  run_prog pipeline cnt ch (crash_at k) w0 = (r, s) ->
   st (wd s) = SOk -> ex (wd s) = true /\ co (wd s) = true /\ so (wd s) = true /\ ix (wd s) = true.
 Proof. intros cnt ch k. apply never_ok_early. Qed.
 
@@ -36,7 +36,7 @@ Proof. vm_compute. reflexivity. Qed.
 
 Lemma ok_at_end : forall cnt ch f w0 s,
   lost w0 = false ->
-  run pipeline cnt ch f w0 = (RNormal, s) ->
+  run_prog pipeline cnt ch f w0 = (RNormal, s) ->
   st (wd s) = SOk /\ ex (wd s) = true /\ co (wd s) = true /\ so (wd s) = true /\ ix (wd s) = true.
 Proof.
   intros cnt ch f w0 s Hl Hrun.
@@ -57,7 +57,7 @@ Proof. vm_compute. reflexivity. Qed.
 Lemma fail_not_ok : forall cnt ch f w0 r s,
   ch id_ch_tempfiles = false ->
   st w0 <> SOk ->
-  run pipeline cnt ch f w0 = (r, s) ->
+  run_prog pipeline cnt ch f w0 = (r, s) ->
   r <> RNormal -> st (wd s) <> SOk.
 Proof.
   intros cnt ch f w0 r s Hch Hst Hrun Hr.
@@ -78,7 +78,7 @@ Proof. vm_compute. reflexivity. Qed.
 
 Lemma worker_complete : forall cnt ch f w0 s,
   lost w0 = false ->
-  run worker_body cnt ch f w0 = (RNormal, s) ->
+  run_prog worker_body cnt ch f w0 = (RNormal, s) ->
   ex (wd s) = true /\ co (wd s) = true /\ so (wd s) = true /\ ix (wd s) = true.
 Proof.
   intros cnt ch f w0 s Hl Hrun.
